@@ -4901,3 +4901,62 @@ def connector_certificate_policy(ctx, mir, stats):
     return [{"id": "connector:certificate-policy-unchanged", "ok": ok, "functions": [f.name], "where": f.name, "needs_native": False, "native": None,
              "detail": "Connector::connect gives x224::Client::connect its own check_certificate setting, unmodified, on every path (with and without NLA, in every mode)" if ok else
              "Connector::connect gives x224::Client::connect `%s` instead of its check_certificate setting: the caller's certificate policy is altered" % why}]
+
+
+# --------------------------------------------------------------------------
+# C13: the TPKT reader never asks the link for "whatever is available" (Link::read(0))
+# --------------------------------------------------------------------------
+TPKT_BODY_NATIVE = _native("verif_replay_tpkt_body_sizes", "src/core/tpkt.rs", """
+        use std::io::Cursor;
+        use model::link::Stream;
+        // frames whose body length is 0, 1, 1499, 1500, 1501, 4096, 16383, 16384, 16385, 32768, 49152, 65531 bytes, each followed by a short fast-path frame and a short slow-path frame
+        for n in [0usize, 1, 1499, 1500, 1501, 4096, 16383, 16384, 16385, 32768, 49152, 65531].iter() {
+            for fast in [false, true].iter() {
+                if *fast && *n + 3 > 0x7fff { continue }
+                let body: Vec<u8> = (0..*n).map(|i| (i % 251) as u8).collect();
+                let mut wire = if *fast { let l = n + 3; vec![0x80u8, 0x80 | (l >> 8) as u8, l as u8] } else { let l = n + 4; vec![3u8, 0, (l >> 8) as u8, l as u8] };
+                wire.extend_from_slice(&body);
+                wire.extend_from_slice(&[0x40, 4, 0xaa, 0xbb]);
+                wire.extend_from_slice(&[3, 0, 0, 6, 0xcc, 0xdd]);
+                let mut c = Client::new(Link::new(Stream::Raw(Cursor::new(wire))));
+                match c.read().unwrap() {
+                    Payload::Raw(p) => { assert!(!*fast); assert_eq!(p.into_inner(), body, "slow-path body of {} bytes", n); },
+                    Payload::FastPath(f, p) => { assert!(*fast && f == 2); assert_eq!(p.into_inner(), body, "fast-path body of {} bytes", n); }
+                }
+                match c.read().unwrap() { Payload::FastPath(f, p) => { assert_eq!(f, 1); assert_eq!(p.into_inner(), vec![0xaa, 0xbb], "frame after a {}-byte body", n); }, _ => panic!("second frame after a {}-byte body is not the fast-path frame", n) }
+                match c.read().unwrap() { Payload::Raw(p) => assert_eq!(p.into_inner(), vec![0xcc, 0xdd], "third frame after a {}-byte body", n), _ => panic!("third frame after a {}-byte body is not the slow-path frame", n) }
+            }
+        }""")
+
+
+def link_read_never_zero(ctx, mir, stats):
+    obs = []
+    n = 0
+    for f in mir:
+        if not re.match(r"^tpkt::<impl at src/core/tpkt\.rs[^>]*>::\w+$", f.name):
+            continue
+        if not call_blocks(f, r"Link::<S>::read$"):
+            continue
+        se = SymExec(f, stats, loop_bound=1, max_paths=8000).run()
+        bad = None
+        for p in se.finished + [a[0] for a in se.asserts] + [q for q, _b in se.looped]:
+            for i, ev in calls_on(p.events, r"Link::<S>::read$"):
+                n += 1
+                v = ev[3][1] if len(ev[3]) > 1 else None
+                if v is None:
+                    bad = bad or ("?", "size operand not encodable")
+                    continue
+                s = z3.Solver()
+                for c in p.cond[:]:
+                    s.add(c)
+                # only the conditions established before the call matter; later ones can only restrict further
+                s.add(v == 0); stats.queries += 1
+                if s.check() == z3.sat:
+                    bad = bad or (ev[1], "Link::read can be asked for 0 bytes")
+        ok = bad is None
+        obs.append({"id": "%s:never-reads-zero" % f.name[-30:], "ok": ok, "functions": [f.name], "where": f.name, "needs_native": True, "native": None if ok else TPKT_BODY_NATIVE,
+                    "detail": "every Link::read in %s asks for a non-zero number of bytes (read(0) would return whatever is available, i.e. bytes of the next frame)" % f.name.split("::")[-1] if ok else
+                    "%s @%s: %s - an exact-length read becomes \"whatever is available\" and swallows the following frame" % (f.name.split("::")[-1], bad[0], bad[1])})
+    if n == 0:
+        raise Inconclusive("ENCODING-FAILED: no Link::read call found in tpkt.rs")
+    return obs
